@@ -362,8 +362,9 @@ def replay_hist(cfg, inputs):
     from pyoma2.setup import multi, single
     rng = np.random.RandomState(7)
     fs0 = float(inputs.get("fs0", 100.0)) or 100.0
-    N = max(cfg["N"] * 40, 400) + (cfg["N"] % 2)
     seq = cfg["seq"]
+    # long enough for scipy's zero-phase decimation to accept the record after every decimation of the history
+    N = max(cfg["N"] * 40, 400) * (cfg["q"] ** max(0, seq.count("dec") - 2)) + (cfg["N"] % 2)
     kind = cfg["kind"]
     if kind == "single":
         user = [rng.randn(N, 3) + 5.0 + 0.01 * np.arange(N)[:, None]]
